@@ -9,7 +9,8 @@ EXPLANATION = (
     "(R04.2) epoch-map operations are keyed by the scene parameter, every predict advances exactly the epoch of the "
     "scene it was called for (exactly once on every path, never a scene-less skip) and stamps candidates with that "
     "scene and epoch, attribute updates copy scene_id, the idle lookup compares scene ids and reads the epoch of "
-    "the track's own scene, and a batch job's result tuple carries the job's own scene id.")
+    "the track's own scene, and a batch job's result tuple carries the job's own scene id. "
+    "(R04.5) in the batch VisualSORT the exclusively-owned-area shares are computed inside the per-scene loop from that scene's boxes only; (R04.6) scenes voted in parallel draw ids from one counter under one write-lock acquisition (a clash makes add_track fail inside a voting thread and the scene is not tracked); (R04.4) scene_id is written only by the attribute update.")
 NOT_DECIDED = ["non-interference of whole runs as a two-run comparison", "the shared auto-waste counter (GC timing is "
                "covered by C03 R03.4: observers do not depend on it)"]
 ASSUMPTIONS = ["rustc nightly MIR construction", "Track::distances is the only path to the metric (checked in C02 R02.4)"]
@@ -29,6 +30,32 @@ def run(ctx):
     n += apply_copies_scene(ctx, 'R04.2')
     n += batch_result_scene(ctx, 'R04.2')
     ctx.floor('R04.2', n, 29)
+    ctx.rule('R04.5', 'batch VisualSORT: own-area shares are computed per scene, from that scene\'s boxes only')
+    ctx.floor('R04.5', own_area_per_scene(ctx, 'R04.5'), 2)
+    ctx.rule('R04.6', 'scenes voted in parallel draw ids from one counter, atomically (a clash kills a scene\'s voting thread)')
+    from props import C01
+    C01.shared_counter(ctx, 'R04.6')
+    C01.r3(ctx, 'R04.6')
+
+
+def own_area_per_scene(ctx, R):
+    n = 0
+    b = ctx.anchor(R, 'trackers::visual_sort::batch_api::BatchVisualSort::predict')
+    if b is None:
+        return 0
+    eb = ExprBuilder(b)
+    calls = [c for c in b.find_calls() if c.name in ('exclusively_owned_areas', 'exclusively_owned_areas_normalized_shares')]
+    for c in calls:
+        a = eb.arg(c, 0)
+        per_elem = any(x.kind == 'call' and x.name.rsplit('::', 1)[-1] == 'next' for x in a.walk())
+        widened = [x.name.rsplit('::', 1)[-1] for x in a.walk() if x.kind == 'call' and
+                   x.name.rsplit('::', 1)[-1] in ('flatten', 'flat_map', 'values', 'concat', 'chain')]
+        n += 1
+        ctx.check(bool(b.in_loop(c.bb)) and per_elem and not widened, R, b, 'own-area:%s-per-scene' % c.name,
+                  'inside the scene loop, over the current scene element',
+                  '%s is computed %s over %r: boxes of different scenes clip each other\'s exclusively owned area' % (
+                      c.name, 'inside the scene loop' if b.in_loop(c.bb) else 'OUTSIDE the per-scene loop', a), c.ln)
+    return n
 
 
 def apply_copies_scene(ctx, R):
